@@ -4,7 +4,9 @@ import (
 	"context"
 	"encoding/json"
 	"errors"
+	"fmt"
 
+	"github.com/invopop/gobl/internal"
 	"github.com/invopop/gobl/pkg/here"
 	"github.com/invopop/gobl/uuid"
 	"github.com/invopop/jsonschema"
@@ -204,6 +206,9 @@ func (d *Object) UnmarshalJSON(data []byte) error {
 	d.payload = d.Schema.Interface()
 	if d.payload == nil {
 		return ErrUnknownSchema
+	}
+	if p, found := internal.NullArrayElement(data); found {
+		return fmt.Errorf("null array element at %s", p)
 	}
 	if err := json.Unmarshal(data, d.payload); err != nil {
 		return err
